@@ -62,6 +62,9 @@ fn main() {
         p @ ("C01" | "C02" | "C03" | "C04") => cvx::checks::static_checks::run(p, tier),
         "C07" => cvx::checks::static_checks::run_c07(tier),
         "C18" => cvx::checks::c18::run(tier),
+        "C11" => cvx::checks::c11::run(tier),
+        "C05" => cvx::checks::c05::run_check(tier),
+        "C06" => cvx::checks::c06::run(tier),
         "C16" => cvx::checks::c16::run(tier),
         "C15" => cvx::checks::c15::run(tier),
         "C14" => cvx::checks::c14::run(tier),
